@@ -478,7 +478,7 @@ class Exec(Interp):
         self.assume(st, n == self.harr(st, sz)[d.term])
         self.assume(st, n >= 0)
         self.assume(st, qforall([i], z3.Implies(z3.And(0 <= i, i < n), z3.And(has[seq[i]], pos[seq[i]] == i)), patterns=[seq[i]]))
-        self.assume(st, qforall([kk], z3.Implies(has[kk], z3.And(0 <= pos[kk], pos[kk] < n, seq[pos[kk]] == kk)), patterns=[pos[kk]]))
+        self.assume(st, qforall([kk], z3.Implies(has[kk], z3.And(0 <= pos[kk], pos[kk] < n, seq[pos[kk]] == kk)), patterns=[pos[kk], has[kk]]))
         cache[key] = l
         st.ghost.setdefault("keypos", {})[l.term.get_id()] = pos
         return l
@@ -500,7 +500,7 @@ class Exec(Interp):
         self.assume(st, n == self.harr(st, sz)[s.term])
         self.assume(st, n >= 0)
         self.assume(st, qforall([i], z3.Implies(z3.And(0 <= i, i < n), z3.And(has[seq[i]], pos[seq[i]] == i)), patterns=[seq[i]]))
-        self.assume(st, qforall([kk], z3.Implies(has[kk], z3.And(0 <= pos[kk], pos[kk] < n, seq[pos[kk]] == kk)), patterns=[pos[kk]]))
+        self.assume(st, qforall([kk], z3.Implies(has[kk], z3.And(0 <= pos[kk], pos[kk] < n, seq[pos[kk]] == kk)), patterns=[pos[kk], has[kk]]))
         return l
 
     def check_invariants(self, st, spec: LoopSpec, node, phase, ctx):
